@@ -22,6 +22,7 @@ import (
 	"time"
 
 	"github.com/bbva/qed/api/mgmthttp"
+	"github.com/bbva/qed/balloon"
 	qedcmd "github.com/bbva/qed/cmd"
 	"github.com/bbva/qed/consensus"
 	"github.com/bbva/qed/log"
@@ -769,6 +770,10 @@ func (w *world) nodeOp(r *xp.Req, resp *xp.Resp) {
 		h.mu.Lock()
 		resp.Snaps = append([]xp.Snap{}, h.handed...)
 		h.mu.Unlock()
+	case "node-add-concurrent":
+		// r.A clients, each making r.B insertion calls one after the other; call i of client a
+		// inserts Sizes[(a*B+i) % len] events (1 = RaftNode.Add, >1 = AddBulk); all clients run at once
+		resp.Acks = concurrentAdds(n, int(r.A), int(r.B), r.Args)
 	case "node-stress":
 		resp.Emitted, resp.Bad = stress(n, r)
 	case "node-state":
@@ -917,6 +922,58 @@ func runQueries(n *consensus.RaftNode, qs []xp.Query, timeout time.Duration) []x
 // stress: concurrent adders and queriers on the public API (race tier of C10).
 // r.A adders each doing r.B adds (bulk size r.C), r.N queriers running until
 // the adders finish. Returns (#operations, #panics).
+func concurrentAdds(n *consensus.RaftNode, clients, calls int, sizes []string) []xp.Ack {
+	acks := make([]xp.Ack, clients*calls)
+	var wg sync.WaitGroup
+	start := make(chan struct{})
+	for a := 0; a < clients; a++ {
+		wg.Add(1)
+		go func(a int) {
+			defer wg.Done()
+			<-start
+			for i := 0; i < calls; i++ {
+				k := 1
+				if len(sizes) > 0 {
+					fmt.Sscanf(sizes[(a*calls+i)%len(sizes)], "%d", &k)
+				}
+				ack := xp.Ack{Client: a, Seq: i}
+				for j := 0; j < k; j++ {
+					ack.Events = append(ack.Events, []byte(fmt.Sprintf("cc-%d-%d-%d", a, i, j)))
+				}
+				func() {
+					defer func() {
+						if p := recover(); p != nil {
+							ack.Err = fmt.Sprintf("panic: %v", p)
+						}
+					}()
+					var snaps []*balloon.Snapshot
+					var err error
+					if k == 1 {
+						var s1 *balloon.Snapshot
+						s1, err = n.Add(ack.Events[0])
+						if s1 != nil {
+							snaps = []*balloon.Snapshot{s1}
+						}
+					} else {
+						snaps, err = n.AddBulk(ack.Events)
+					}
+					if err != nil {
+						ack.Err = err.Error()
+						return
+					}
+					for _, s := range snaps {
+						ack.Snaps = append(ack.Snaps, xp.Snap{Version: s.Version, Event: s.EventDigest, History: s.HistoryDigest, Hyper: s.HyperDigest})
+					}
+				}()
+				acks[a*calls+i] = ack
+			}
+		}(a)
+	}
+	close(start)
+	wg.Wait()
+	return acks
+}
+
 func stress(n *consensus.RaftNode, r *xp.Req) (ops, panics int) {
 	var wg, qwg sync.WaitGroup
 	var stop int32
